@@ -58,11 +58,11 @@ def observe(mage, case):
     """everything that is run for one package"""
     d = case["dir"]
     ob = {}
-    stub = os.path.join(d, "zz_verif_stub_main.go")
+    stub = os.path.join(case["src"], "zz_verif_stub_main.go")
     with open(stub, "w") as f:
         f.write(STUB)
     # compiles (type-checks) the package without linking; exit status 1 on any compile error
-    rc, out, err = sh(["go", "list", "-tags", "mage", "-export", "-f", "{{.Export}}", "."], cwd=d, env=goenv(), timeout=300)
+    rc, out, err = sh(["go", "list", "-tags", "mage", "-export", "-f", "{{.Export}}", "."], cwd=case["src"], env=goenv(), timeout=300)
     os.remove(stub)
     ob["alone_ok"] = rc == 0
     ob["alone_err"] = err[-600:]
@@ -250,6 +250,8 @@ def run(ctx):
             cases.append({"stream": "main", "pkg": G.gen_package(rng)})
         for shape in ["wrong-spec", "panic-multi", "ok-unexported-first", "ok-first", "no-own-value", "typed-no-value"] * k:
             cases.append({"stream": "default:" + shape, "pkg": G.gen_default_shape(rng, shape)})
+        for _ in range(3 * k):
+            cases.append({"stream": "magefiles-dir", "pkg": G.gen_package(rng)})
         for cls, n in (("import-name-clash", 4), ("generic-namespace-type", 1), ("lookalike", 6)):
             for _ in range(n * k):
                 cases.append({"stream": cls, "pkg": G.gen_clash(rng, cls)})
@@ -259,8 +261,16 @@ def run(ctx):
     for c in cases:
         pkg = c["pkg"]
         pname = "p%04d" % (mage.n + 1)
-        c["dir"] = mage.project(G.render_package(pkg, pname), name=pname)
-        c["files"] = sorted(f for f in os.listdir(c["dir"]) if f.startswith("mf_"))
+        files = G.render_package(pkg, pname)
+        if c["stream"] == "magefiles-dir":
+            # the magefiles live in ./magefiles next to files the go tool EXCLUDES from the package on this
+            # platform: their exported functions are not part of the magefile package
+            files = {("magefiles/" + k if k.startswith("mf_") else k): v for k, v in files.items()}
+            files["magefiles/other_windows.go"] = "package main\n\n// OnlyWindows exists on another platform only.\nfunc OnlyWindows() {}\n"
+            files["magefiles/gen_tool.go"] = "//go:build ignore\n\npackage main\n\n// Generate belongs to a go:generate tool.\nfunc Generate(n int) error { return nil }\n\nfunc main() {}\n"
+        c["dir"] = mage.project(files, name=pname)
+        c["src"] = os.path.join(c["dir"], "magefiles") if c["stream"] == "magefiles-dir" else c["dir"]
+        c["files"] = sorted(f for f in os.listdir(c["src"]) if f.startswith("mf_"))
         c["runs"] = plan_runs(rng, pkg)
         errs = [r for r, f in [(r, next(f for f in pkg["funcs"] if G.def_id(f) == r[3])) for r in c["runs"]]
                 if len(f["res"]) == 1 and f["res"][0]["kind"] == "error"]
@@ -269,7 +279,7 @@ def run(ctx):
         c["default_noargs"] = bool(d) and not [t for t in G.flat_param_types(d) if t != "ctx"]
     ctx.log("%d packages written" % len(cases))
     # ---- go/doc's own view (no mage code involved)
-    inp = "".join(json.dumps({"dir": c["dir"], "files": c["files"]}) + "\n" for c in cases)
+    inp = "".join(json.dumps({"dir": c["src"], "files": c["files"]}) + "\n" for c in cases)
     rc, out, err = sh([docview], input=inp.encode(), timeout=600)
     dvs = [json.loads(l) for l in out.splitlines() if l.strip()]
     if rc != 0 or len(dvs) != len(cases):
